@@ -33,6 +33,14 @@ prop("C13", "model_checking",
      "exhaustive enumeration of all operation sequences up to a depth (inserts of a two-author universe, document removal and re-creation) on the real store against reference heads, plus exhaustive enumeration of small author-head sets x all size limits for the codec",
      "Heads and has_news_for_us are compared with the reference replica after every history of <=3 (quick) / <=4 (thorough) steps for all 16 peer reports; AuthorHeads::encode/decode is checked on all 2401 head sets of <=4 authors over 6 varint-edge timestamps (ties included) under every size limit.",
      "Bounded depth/alphabet; limit 0 excluded (unsatisfiable); any key attaining the maximum is accepted as the head's key.")
+prop("C03", "exploration",
+     "exhaustive enumeration of a single-fault tamper alphabet (every byte position x 4 alterations, signature substitutions, foreign keys, boundary timestamps, emptiness combinations) x both ingress paths x every position of hand-assembled reconciliation messages, against an independent acceptance predicate",
+     "Every candidate of the tamper alphabet is presented to the real replica as a remote insert and inside crafted reconciliation messages; acceptance must equal an independent predicate (own canonical encoder, library signature check, namespace, future bound, emptiness), rejected candidates must leave records, both index paths, heads and content hashes identical and produce no event while the rest of the message is applied.",
+     "ed25519 is trusted; single-fault candidates only; messages of 1..3 parts with 1..2 entries per part.")
+prop("C05", "exploration",
+     "exhaustive product of all small reachable replica states (incl. stale by-key index rows) x the full query parameter product, each result compared with a list-comprehension oracle over the reference dump",
+     "8640 queries (kind x author filter x key filter x direction x include-empty x offset x limit) plus all point lookups on every state reachable from <=3 (quick) / <=4 (thorough) offered entries of a two-author universe with empty, prefix-related and 0xFF-edged keys.",
+     "States with at most 4 offered entries; ties for the greatest timestamp in latest-per-key accept any tied entry.")
 
 ORDER = ["C%02d" % i for i in range(1, 19)]
 
